@@ -26,13 +26,16 @@ CONSTANTS Conns,        \* connections; connection c's challenge is identified w
           DefaultRoles, \* roles of a connection that is not authenticated
           ActionRoles   \* [action -> set of roles]: "save", "query"
 
-VARIABLES token,        \* [c -> <<>> | <<key>>]
+VARIABLES token,        \* [c -> the session of connection c]: [st |-> "none" | "auth" | "closed", key, roles]
+          roles,        \* [key -> set of roles] as last assigned (set_auth_roles); starts as RolesOf
           last          \* the last step, for the action properties
 
-vars == <<token, last>>
+vars == <<token, roles, last>>
 Range(s) == {s[i] : i \in DOMAIN s}
 
-Init == token = [c \in Conns |-> <<>>] /\ last = [a |-> "init"]
+NoSession == [st |-> "none", key |-> "", roles |-> {}]
+Session(k, rs) == [st |-> "auth", key |-> k, roles |-> rs]
+Init == token = [c \in Conns |-> NoSession] /\ roles = RolesOf /\ last = [a |-> "init"]
 
 Fresh(p) == p.age > -600 /\ p.age < 600
 Stale(p) == p.age > 600 \/ p.age < -600                      \* exactly 600 s: either way
@@ -49,27 +52,37 @@ MustReject(c, p) ==
     \/ \A k \in DOMAIN p.chals : p.chals[k] # c                   \* (also: no challenge tag, another connection's challenge)
 
 \* a connection the relay has closed (an error in the handler, a timeout): it has no identity and no roles any more
-Closed == <<"", "closed">>
+Closed == [st |-> "closed", key |-> "", roles |-> {}]
 
 (* an AUTH message on connection c; ok = whether the relay accepted it *)
 Auth(c, p, ok) ==
     /\ (ok => ~MustReject(c, p) /\ token[c] # Closed)
     /\ (~ok => ~MustAccept(c, p) \/ token[c] = Closed)
-    /\ token' = IF ok THEN [token EXCEPT ![c] = <<p.signer>>] ELSE token
+    \* the session names the signer and carries the roles assigned to that key at this moment
+    /\ token' = IF ok THEN [token EXCEPT ![c] = Session(p.signer, roles[p.signer])] ELSE token
+    /\ UNCHANGED roles
     /\ last' = [a |-> "auth", c |-> c, p |-> p, ok |-> ok]
 
 (* the relay closes connection c (web.start_client's outer handlers: close code 1013) *)
 Close(c) ==
     /\ token' = [token EXCEPT ![c] = Closed]
+    /\ UNCHANGED roles
     /\ last' = [a |-> "close", c |-> c]
 
-RolesOfConn(c) == IF token[c] = <<>> THEN DefaultRoles ELSE IF token[c] = Closed THEN {} ELSE RolesOf[token[c][1]]
+(* the operator assigns roles to a key (set_auth_roles): sessions that exist keep the roles they were given; the next *)
+(* AUTH of that key - on any connection - gets the new ones                                                       *)
+SetRoles(k, rs) ==
+    /\ roles' = [roles EXCEPT ![k] = rs]
+    /\ UNCHANGED token
+    /\ last' = [a |-> "setroles", key |-> k]
+
+RolesOfConn(c) == IF token[c].st = "none" THEN DefaultRoles ELSE IF token[c].st = "closed" THEN {} ELSE token[c].roles
 May(c, action) == RolesOfConn(c) \cap ActionRoles[action] # {}
 
 (* a probe on connection c: an EVENT (save) or a REQ (query) of someone entitled iff the roles intersect *)
 Probe(c, action, allowed) ==
     /\ allowed = May(c, action)
-    /\ UNCHANGED token
+    /\ UNCHANGED <<token, roles>>
     /\ last' = [a |-> "probe", c |-> c, action |-> action, allowed |-> allowed]
 
 ----------------------------------------------------------------------------
@@ -77,7 +90,7 @@ Probe(c, action, allowed) ==
 A_C15_OnlyValidAuth ==
     \A c \in Conns : token'[c] # token[c] =>
         \/ /\ last'.a = "auth" /\ last'.c = c /\ last'.ok
-           /\ ~MustReject(c, last'.p) /\ token'[c] = <<last'.p.signer>>
+           /\ ~MustReject(c, last'.p) /\ token'[c].st = "auth" /\ token'[c].key = last'.p.signer
         \/ last'.a = "close" /\ last'.c = c /\ token'[c] = Closed
 \* ... any other AUTH leaves it as it was
 A_C15_FailedAuthKeepsIdentity == (last'.a = "auth" /\ ~last'.ok) => token' = token
@@ -86,17 +99,22 @@ A_C15_NoCrossReplay ==
     (last'.a = "auth" /\ last'.ok) => \E k \in DOMAIN last'.p.chals : last'.p.chals[k] = last'.c
 \* C14: an action is performed iff the connection's roles intersect the roles configured for it
 A_C14_RoleCheck == last'.a = "probe" => last'.allowed = (RolesOfConn(last'.c) \cap ActionRoles[last'.action] # {})
+\* C14: a session carries the roles assigned to its key when it authenticated (a later assignment shows at the next AUTH)
+A_C14_SessionRolesCurrent ==
+    (last'.a = "auth" /\ last'.ok) => token'[last'.c].roles = roles[last'.p.signer]
 
 C15_OnlyValidAuth == [][A_C15_OnlyValidAuth]_vars
 C15_FailedAuthKeepsIdentity == [][A_C15_FailedAuthKeepsIdentity]_vars
 C15_NoCrossReplay == [][A_C15_NoCrossReplay]_vars
 C14_RoleCheck == [][A_C14_RoleCheck]_vars
+C14_SessionRolesCurrent == [][A_C14_SessionRolesCurrent]_vars
 
 StepVerdict ==
     (IF A_C15_OnlyValidAuth THEN {} ELSE {"C15_OnlyValidAuth"})
     \cup (IF A_C15_FailedAuthKeepsIdentity THEN {} ELSE {"C15_FailedAuthKeepsIdentity"})
     \cup (IF A_C15_NoCrossReplay THEN {} ELSE {"C15_NoCrossReplay"})
     \cup (IF A_C14_RoleCheck THEN {} ELSE {"C14_RoleCheck"})
+    \cup (IF A_C14_SessionRolesCurrent THEN {} ELSE {"C14_SessionRolesCurrent"})
 \* challenges: pairwise distinct, well-formed (a sequence of issued challenges, as strings)
 C15_ChallengesDistinct(chs) == Cardinality(Range(chs)) = Len(chs)
 =============================================================================
